@@ -66,8 +66,46 @@ def run(ctx):
     for ks in range(0, 33):
         for n in (0, 1, 2, 3, 8, 9):
             cases.append(("generate_kcv", (rng.randbytes(ks), n)))
-    return fw.call_result(
+    # under ONE key: valid, rejected (bad length), valid again - nothing may be left buffered between calls
+    for alg in ("tdes", "aes"):
+        bs = 8 if alg == "tdes" else 16
+        for ks in KS[alg]:
+            key, iv = rng.randbytes(ks), rng.randbytes(bs)
+            for d in ("encrypt", "decrypt"):
+                for badlen in (1, bs - 1, bs + 1, 2 * bs + 3):
+                    good = rng.randbytes(2 * bs)
+                    cases += [("%s_%s_ecb" % (d, alg), (key, good)), ("%s_%s_ecb" % (d, alg), (key, rng.randbytes(badlen))),
+                              ("%s_%s_ecb" % (d, alg), (key, good)),
+                              ("%s_%s_cbc" % (d, alg), (key, iv, good)), ("%s_%s_cbc" % (d, alg), (key, iv, rng.randbytes(badlen))),
+                              ("%s_%s_cbc" % (d, alg), (key, iv, good))]
+    from harness import gens
+    cases = fw.with_history(rng, cases, gens.variants_generic(rng), fraction=0.1, limit=60)
+    # large inputs (nothing buffered, dropped or re-chained at any internal chunk size): impl vs textbook oracle
+    big = []
+    for alg in ("tdes", "aes"):
+        bs = 8 if alg == "tdes" else 16
+        for nb in ((513, 4097, 8193) if not ctx.thorough else (513, 1025, 4096, 4097, 8192, 8193, 12300)):
+            key, iv, data = rng.randbytes(KS[alg][-1]), rng.randbytes(bs), rng.randbytes(nb * bs)
+            for d in ("encrypt", "decrypt"):
+                big.append(("%s_%s_cbc" % (d, alg), (key, iv, data)))
+                big.append(("%s_%s_ecb" % (d, alg), (key, data)))
+    res = fw.call_result(
         cases, check_impl=check_impl, nontrivial=lambda fn, a, o_: o_[0] == "OK",
         rule="all key sizes x 1..6 blocks x random keys/IVs/data, both directions and modes; every data length 0..3 "
              "blocks; key sizes 0..40 and wrong IV sizes for rejection; KCV over key sizes 0..32; oracle = single-block "
              "OpenSSL ECB + hand chaining; non-trivial = distinct successful calls")
+    for fn, args in big:
+        out = core.impl_call(fn, args)
+        v = check_impl(fn, args, out)
+        res["evaluations"] += 1
+        res["distribution"]["large:" + fn] = res["distribution"].get("large:" + fn, 0) + 1
+        if v:
+            v["input"] = {"fn": fn, "args": [core.show(a)[:200] + "..." for a in args], "blocks": len(args[-1]) // (8 if "tdes" in fn else 16)}
+            v["expected"] = str(v["expected"])[:200]
+            v["observed"] = str(v["observed"])[:200]
+            res["violations"].append(v)
+    if ctx.thorough:
+        sub = [b for b in big if len(b[1][-1]) <= 513 * 16]
+        r2 = fw.call_result(sub, check_impl=None)
+        res["diffs"] += [{k: (str(v)[:200]) for k, v in d.items()} for d in r2["diffs"]]
+    return res
